@@ -29,6 +29,15 @@ CLAIMED = {
  'C08': dict(engine='E1', technique='real sdeint + real autograd traced symbolically; gradient DAG vs symbolic derivative of the forward DAG (exact polynomial normal form, residual decided by z3)',
              text='For every solver x noise type x grad_free, two fixed steps and an interpolated output with symbolic y0, parameters, increments and loss weights: each autograd gradient component equals the symbolic derivative of the traced numerical solution for all symbol values.',
              note='exact derivative replaces finite differences; bounds d<=2, 2 steps, degree (1,2)', ref='4/C08'),
+ 'C09': dict(engine='E1', technique='real sdeint_adjoint vs sdeint traced symbolically: forward DAG identity, gradient-structure observations, exact rational-function equality of adjoint and backprop gradients in the exactly solvable case (z3 on the residual)',
+             text='sdeint_adjoint forward values are the identical float-operation DAG as sdeint for every accepted (sde_type, method, noise_type, grad_free); only y0 and requested adjoint parameters receive gradients; for autonomous affine drift + additive noise with Euler both ways the adjoint gradient equals backprop exactly for arbitrary loss weights on 2-3 output times. Convergence as dt->0 is reduced to C11 + C03/C05 + solver order (stated), not decided.',
+             note='the dt->0 limit and finite-dt agreement with closed forms are outside; d<=2, m<=2', ref='4/C09'),
+ 'C10': dict(engine='E1', technique='both gradient computations of the real code (adjoint_reversible_heun vs backprop through reversible_heun) traced symbolically; equality as real polynomial functions (normal form + z3 residual)',
+             text='For all four noise types, 2 steps with quadratic f,g (3-4 with affine), arbitrary loss weights on all output times: every gradient component (y0 and each parameter) from sdeint_adjoint equals the backprop gradient for all symbol values; forward DAGs identical.',
+             note='algebraic identity over the reals; float rounding magnitude (1e-9) reported by the replay only', ref='4/C10'),
+ 'C19': dict(engine='E2', technique='concolic enumeration of symbolic enum/int-valued options through the real sdeint/sdeint_adjoint front end (z3 decides branch feasibility; coverage = size of the product), oracle table from DOCUMENTATION.md',
+             text='Full forward product (2816 combinations incl. invalid/None method, bm given or not, adaptive, logqp): ValueError before integrate iff unsupported, documented default method and default Levy area; adjoint product: unsupported adjoint methods raise during backward, supported ones complete; bm shapes in 1..3 and all 32 interface subsets: ValueError iff inconsistent/missing; further malformed-argument classes by concrete observation.',
+             note='support table transcribed from the documentation; exceptions raised inside user-supplied g_prod when probed with an inconsistent bm count as refused', ref='4/C19'),
  'C11': dict(engine='E1', technique='real AdjointSDE on a real ForwardSDE traced through autograd (double backward included); z3 equality with the prescribed fields built from dag.diff of the traced f,g',
              text='All 2x4 (sde_type, noise_type) combinations, symbolic (t,y,a,v,params incl. an unused one): drift, diffusion-vector product and diagonal Milstein term equal the mathematically prescribed quantities (independently derived closed form incl. the Ito conversion terms); graph discipline under no_grad / enable_grad observed.',
              note='bounds d=2, m=2, degree (1,2)', ref='4/C11'),
@@ -43,13 +52,10 @@ CLAIMED = {
              note='real arithmetic; numerical stability outside', ref='4/C15'),
 }
 PENDING = {
- 'C09': 'harness under construction (adjoint forward identity + exact affine case)',
- 'C10': 'harness under construction (reversible Heun adjoint vs backprop, rational-function equality)',
  'C13': 'harness under construction (chunked vs one-shot DAG identity)',
  'C16': 'harness under construction (interface variants, derived operators)',
  'C17': 'harness under construction (special noise types vs general embedding)',
  'C18': 'harness under construction (logqp)',
- 'C19': 'harness under construction (support table over symbolic enums)',
  'C20': 'harness under construction (row independence via DAG support)',
 }
 import importlib.util
